@@ -2,8 +2,6 @@ package harness
 
 import (
 	"bufio"
-	"sync/atomic"
-	"syscall"
 	"encoding/json"
 	"flag"
 	"fmt"
@@ -14,6 +12,8 @@ import (
 	"sort"
 	"strings"
 	"sync"
+	"sync/atomic"
+	"syscall"
 	"time"
 
 	"verifsim/simrt"
@@ -69,25 +69,25 @@ func matchKnown(kf []KnownFinding, v *Violation) *KnownFinding {
 
 // Agg is what a worker reports.
 type Agg struct {
-	Runs        int                `json:"runs"`
-	Nontrivial  int                `json:"nontrivial"`
-	Steps       int64              `json:"steps"`
-	Events      int64              `json:"events"`
-	SimNS       int64              `json:"sim_ns"`
-	Probes      map[string]int     `json:"probes"`
-	Faults      map[string]int     `json:"faults"`
-	CallCounts  map[string]int     `json:"calls"`
-	Other       map[string]int     `json:"other"`
-	Distinct    []uint64           `json:"distinct"`
-	States      []uint64           `json:"states"`
-	Samples     []json.RawMessage  `json:"samples"`
-	PerPart     map[string][2]int  `json:"per_part"`
-	Budget      int                `json:"budget"`
-	MaxTables   int                `json:"max_tables"`
-	Crashes     int                `json:"crashes"`
-	Extra       map[string]float64 `json:"extra"`
-	KnownHits   map[string]int     `json:"known_hits"`
-	Tainted     int                `json:"tainted"`
+	Runs       int                `json:"runs"`
+	Nontrivial int                `json:"nontrivial"`
+	Steps      int64              `json:"steps"`
+	Events     int64              `json:"events"`
+	SimNS      int64              `json:"sim_ns"`
+	Probes     map[string]int     `json:"probes"`
+	Faults     map[string]int     `json:"faults"`
+	CallCounts map[string]int     `json:"calls"`
+	Other      map[string]int     `json:"other"`
+	Distinct   []uint64           `json:"distinct"`
+	States     []uint64           `json:"states"`
+	Samples    []json.RawMessage  `json:"samples"`
+	PerPart    map[string][2]int  `json:"per_part"`
+	Budget     int                `json:"budget"`
+	MaxTables  int                `json:"max_tables"`
+	Crashes    int                `json:"crashes"`
+	Extra      map[string]float64 `json:"extra"`
+	KnownHits  map[string]int     `json:"known_hits"`
+	Tainted    int                `json:"tainted"`
 }
 
 func newAgg() *Agg {
@@ -174,17 +174,17 @@ func RunSeed(seed uint64, prop string, i int) uint64 {
 
 func sampleOf(spec *RunSpec, res *RunResult) json.RawMessage {
 	type sample struct {
-		Scenario string          `json:"scenario"`
-		RunSeed  uint64          `json:"run_seed"`
-		Cfg      CfgSpec         `json:"cfg"`
-		Setup    int             `json:"setup_ops"`
-		Tasks    []TaskSpec      `json:"tasks"`
-		Faults   []simrt.Fault   `json:"faults,omitempty"`
-		Sched    string          `json:"scheduler"`
-		Segs     []simrt.Segment `json:"schedule_segments,omitempty"`
-		Steps    int             `json:"steps"`
-		Versions int             `json:"list_versions"`
-		Calls    map[string]int  `json:"calls"`
+		Scenario string           `json:"scenario"`
+		RunSeed  uint64           `json:"run_seed"`
+		Cfg      CfgSpec          `json:"cfg"`
+		Setup    int              `json:"setup_ops"`
+		Tasks    []TaskSpec       `json:"tasks"`
+		Faults   []simrt.Fault    `json:"faults,omitempty"`
+		Sched    string           `json:"scheduler"`
+		Segs     []simrt.Segment  `json:"schedule_segments,omitempty"`
+		Steps    int              `json:"steps"`
+		Versions int              `json:"list_versions"`
+		Calls    map[string]int   `json:"calls"`
 		Extra    *json.RawMessage `json:"extra,omitempty"`
 	}
 	s := sample{Scenario: spec.Scenario, RunSeed: spec.Seed, Cfg: spec.Cfg, Setup: len(spec.Setup), Tasks: spec.Tasks, Faults: spec.Faults,
@@ -724,32 +724,32 @@ func countDistinct(xs []uint64) int {
 func writeEvidence(verif string, plan *Plan, tier string, seed uint64, a *Agg, wall float64, nviol int, workers int) {
 	dn := countDistinct(a.Distinct)
 	cov := map[string]interface{}{
-		"evaluations":         a.Runs,
-		"distinct_nontrivial": dn,
-		"rule":                plan.Rule,
-		"samples":             a.Samples,
-		"nontrivial_runs":     a.Nontrivial,
-		"runs_per_scenario":   a.PerPart,
-		"simulated_steps":     a.Steps,
-		"filesystem_events":   a.Events,
-		"simulated_time_s":    float64(a.SimNS) / 1e9,
-		"runs_per_hour":       float64(a.Runs) / wall * 3600,
-		"seeds_per_hour":      float64(a.Runs) / wall * 3600,
-		"fault_kinds_fired":   a.Faults,
-		"process_crashes":     a.Crashes,
-		"reach_probes":        a.Probes,
-		"api_calls_by_result": a.CallCounts,
-		"distinct_states":     countDistinct(a.States),
-		"distinct_states_measure": "distinct (tables.list length, multiset of path classes in the directory, per-handle staleness vector) sampled after every completed call",
-		"distinct_interleavings_measure": "distinct hashes of the shared-path filesystem event sequence projected to (task, call kind, path class, result), counted over non-trivial runs",
-		"max_tables":          a.MaxTables,
-		"step_budget_exceeded": a.Budget,
+		"evaluations":                         a.Runs,
+		"distinct_nontrivial":                 dn,
+		"rule":                                plan.Rule,
+		"samples":                             a.Samples,
+		"nontrivial_runs":                     a.Nontrivial,
+		"runs_per_scenario":                   a.PerPart,
+		"simulated_steps":                     a.Steps,
+		"filesystem_events":                   a.Events,
+		"simulated_time_s":                    float64(a.SimNS) / 1e9,
+		"runs_per_hour":                       float64(a.Runs) / wall * 3600,
+		"seeds_per_hour":                      float64(a.Runs) / wall * 3600,
+		"fault_kinds_fired":                   a.Faults,
+		"process_crashes":                     a.Crashes,
+		"reach_probes":                        a.Probes,
+		"api_calls_by_result":                 a.CallCounts,
+		"distinct_states":                     countDistinct(a.States),
+		"distinct_states_measure":             "distinct (tables.list length, multiset of path classes in the directory, per-handle staleness vector) sampled after every completed call",
+		"distinct_interleavings_measure":      "distinct hashes of the shared-path filesystem event sequence projected to (task, call kind, path class, result), counted over non-trivial runs",
+		"max_tables":                          a.MaxTables,
+		"step_budget_exceeded":                a.Budget,
 		"violations_of_other_properties_seen": a.Other,
-		"known_finding_hits":  a.KnownHits,
-		"tainted_runs":        a.Tainted,
-		"workers":             workers,
-		"real_components":     []string{"package reftable (stack, writer, reader, block, record, merged, refname) compiled from /repo's working tree", "compress/zlib", "hash/crc32"},
-		"stub_components":     []string{"os / io/ioutil filesystem calls (in-memory POSIX-subset disk)", "time (simulated clock)", "math/rand (hash-addressed name stream)", "process boundaries (goroutines resumed one at a time stand in for OS processes)"},
+		"known_finding_hits":                  a.KnownHits,
+		"tainted_runs":                        a.Tainted,
+		"workers":                             workers,
+		"real_components":                     []string{"package reftable (stack, writer, reader, block, record, merged, refname) compiled from /repo's working tree", "compress/zlib", "hash/crc32"},
+		"stub_components":                     []string{"os / io/ioutil filesystem calls (in-memory POSIX-subset disk)", "time (simulated clock)", "math/rand (hash-addressed name stream)", "process boundaries (goroutines resumed one at a time stand in for OS processes)"},
 	}
 	for k, v := range a.Extra {
 		cov[k] = v
